@@ -10,6 +10,7 @@ import (
 	"strconv"
 	"strings"
 	"sync"
+	"sync/atomic"
 	"time"
 
 	"github.com/dapr/kit/concurrency"
@@ -84,12 +85,8 @@ type Event struct {
 
 func (e Event) Line() string {
 	switch e.E {
-	case "add":
-		ok := 0
-		if e.OK {
-			ok = 1
-		}
-		return fmt.Sprintf("ev e=add k=%d ok=%d", e.I, ok)
+	case "add.call":
+		return fmt.Sprintf("ev e=add.call k=%d", e.I)
 	case "r.start", "r.done":
 		return fmt.Sprintf("ev e=%s i=%d", e.E, e.I)
 	case "r.ret":
@@ -479,6 +476,7 @@ func (w *world) add(m adder, first, k int, specs []RunnerSpec) bool {
 	for x := 0; x < k; x++ {
 		rs[x] = w.runner(first+x, specs[x])
 	}
+	w.emit(Event{E: "add.call", I: k})
 	var err error
 	func() {
 		defer w.recoverTo("Add")
@@ -486,14 +484,20 @@ func (w *world) add(m adder, first, k int, specs []RunnerSpec) bool {
 	}()
 	switch {
 	case err == nil:
-		w.emit(Event{E: "add", I: k, OK: true})
+		w.emit(Event{E: "add.ok", I: k})
 		return true
 	case errors.Is(err, concurrency.ErrManagerAlreadyStarted):
-		w.emit(Event{E: "add", I: k, OK: false})
+		w.emit(Event{E: "add.rej", I: k})
 	default:
 		w.emit(Event{E: "add.err", I: k, NoDrv: true, Note: err.Error()})
 	}
 	return false
+}
+
+// registered logs the registration of k runners through a constructor.
+func (w *world) registered(k int) {
+	w.emit(Event{E: "add.call", I: k})
+	w.emit(Event{E: "add.ok", I: k})
 }
 
 func (w *world) tick(d int) {
@@ -550,6 +554,8 @@ type outcome struct {
 	Armed   map[int]bool `json:"-"`
 	Accepted map[int]bool `json:"-"` // closer index → AddCloser returned nil
 	BadCloserErr string  `json:"bad_closer_err,omitempty"`
+	Extra   []finding `json:"-"` // findings decided by the director itself (stress families)
+	Stats   map[string]int `json:"stats,omitempty"`
 	RanBad  bool     `json:"-"`
 }
 
@@ -585,6 +591,10 @@ func runCase(c Case) *outcome {
 		return runRM(c)
 	case "acrace":
 		return runACRace(c)
+	case "addrace":
+		return runAddRace(c)
+	case "addstress":
+		return runAddStress(c)
 	default:
 		return runRCM(c)
 	}
@@ -600,7 +610,7 @@ func runRM(c Case) *outcome {
 	m := concurrency.NewRunnerManager(rs...)
 	defer w.cleanup(nil)
 	if c.NNew > 0 {
-		w.emit(Event{E: "add", I: c.NNew, OK: true})
+		w.registered(c.NNew)
 	}
 	if n > c.NNew {
 		w.add(m, c.NNew, n-c.NNew, c.Runners[c.NNew:])
@@ -713,7 +723,7 @@ func runRCM(c Case) *outcome {
 	defer w.cleanup(m)
 	acc := map[int]bool{}
 	if c.NNew > 0 {
-		w.emit(Event{E: "add", I: c.NNew, OK: true})
+		w.registered(c.NNew)
 	}
 	if n > c.NNew {
 		w.add(m, c.NNew, n-c.NNew, c.Runners[c.NNew:])
@@ -925,7 +935,7 @@ func runACRace(c Case) *outcome {
 	m := concurrency.NewRunnerCloserManager(sharedLog, nil, w.runner(0, RunnerSpec{Ret: "nil"}))
 	defer w.cleanup(m)
 	acc := map[int]bool{}
-	w.emit(Event{E: "add", I: 1, OK: true})
+	w.registered(1)
 	run := w.goRun(m)
 	if !w.expectEv("runner not started", "r.start", 0) {
 		return w.finish(acc)
@@ -970,6 +980,111 @@ func runACRace(c Case) *outcome {
 	}
 	time.Sleep(2 * time.Millisecond)
 	return w.finish(acc)
+}
+
+// runAddRace forces the window between Add's `running` check and its lock acquisition without
+// a source hook: the manager has no runner yet; call A (Junk unsupported values to AddCloser) holds
+// mngr.lock; call B = Add(runner 0) passes the running checks and queues on the lock; then Run is
+// called. On the unrepaired code Run's CAS succeeds, it sees no runner, and B's runner is appended
+// afterwards: Add returns nil for a runner that is never started.
+func runAddRace(c Case) *outcome {
+	w := newWorld(c)
+	m := concurrency.NewRunnerCloserManager(sharedLog, nil)
+	defer w.cleanup(m)
+	junk := make([]any, c.Junk)
+	for i := range junk {
+		junk[i] = i
+	}
+	aDone := make(chan struct{})
+	go func() { defer close(aDone); defer w.recoverTo("AddCloser(junk)"); _ = m.AddCloser(junk...) }()
+	time.Sleep(15 * time.Millisecond) // A is inside the locked loop
+	bDone := make(chan struct{})
+	go func() { defer close(bDone); w.add(m, 0, 1, []RunnerSpec{{Ret: "nil"}}) }()
+	time.Sleep(15 * time.Millisecond) // B passed the running checks and waits for the lock
+	run := w.goRun(m)
+	select {
+	case <-aDone:
+	case <-time.After(30 * time.Second):
+		w.hang("junk AddCloser did not return")
+		return w.finish(nil)
+	}
+	select {
+	case <-bDone:
+	case <-time.After(waitTO):
+		w.hang("Add did not return")
+		return w.finish(nil)
+	}
+	// if B's runner was registered in time it is started and must be released
+	started := w.waitFor(func(l []Event) bool { return has(l, "r.start", 0) || count(l, "run.ret") > 0 }, waitTO)
+	if started && has(w.snapshot(), "r.start", 0) {
+		w.release(w.rTok[0])
+		w.expectEv("runner did not return", "r.ret", 0)
+	}
+	w.waitCall(run, "Run did not return")
+	return w.finish(nil)
+}
+
+// runAddStress races Add against Run on a plain RunnerManager Junk times (no forcing at all): each
+// iteration one runner is registered, then `Add(second runner)` and `Run` are released together.
+// Allowed outcomes: Add rejected; or Add accepted and the second runner started. Anything else —
+// accepted but never started, or Run not returning after the first runner was released — violates
+// "starts all runners / rejects additions afterwards".
+func runAddStress(c Case) *outcome {
+	w := newWorld(c)
+	o := &outcome{Case: c, Stats: map[string]int{}}
+	var mu sync.Mutex
+	var wg sync.WaitGroup
+	sem := make(chan struct{}, 8)
+	hangs := 0
+	for it := 0; it < c.Junk && hangs < 3; it++ {
+		sem <- struct{}{}
+		wg.Add(1)
+		go func() {
+			defer wg.Done()
+			defer func() { <-sem }()
+			defer w.recoverTo("Add/Run stress")
+			release := make(chan struct{})
+			m := concurrency.NewRunnerManager(func(ctx context.Context) error { <-release; return nil })
+			var started atomic.Bool
+			start := make(chan struct{})
+			addErr := make(chan error, 1)
+			runDone := make(chan error, 1)
+			go func() { <-start; addErr <- m.Add(func(ctx context.Context) error { started.Store(true); return nil }) }()
+			go func() { <-start; runDone <- m.Run(context.Background()) }()
+			close(start)
+			e := <-addErr
+			close(release)
+			class := ""
+			select {
+			case <-runDone:
+				switch {
+				case e != nil:
+					class = "add-rejected"
+				case started.Load():
+					class = "add-accepted-and-run"
+				default:
+					class = "add-accepted-never-started"
+				}
+			case <-time.After(2 * time.Second):
+				class = "run-hangs-after-racing-add"
+			}
+			mu.Lock()
+			o.Stats[class]++
+			if class == "run-hangs-after-racing-add" {
+				hangs++
+			}
+			mu.Unlock()
+		}()
+	}
+	wg.Wait()
+	if n := o.Stats["add-accepted-never-started"]; n > 0 {
+		o.Extra = append(o.Extra, finding{"add-accepted-never-started", fmt.Sprintf("Add racing the start of Run returned nil but its runner was never started although Run returned (%d of %d races)", n, c.Junk)})
+	}
+	if n := o.Stats["run-hangs-after-racing-add"]; n > 0 {
+		o.Extra = append(o.Extra, finding{"run-hangs-after-racing-add", fmt.Sprintf("Add racing the start of Run returned nil, its runner was never started and Run never returned (%d races)", n)})
+	}
+	o.Panics = w.panics
+	return o
 }
 
 func sortedCopy(x []int) []int {
